@@ -35,9 +35,9 @@ PROP = {
                   "modification time are not asserted. Atomicity/durability of the replacement is C14's subject; "
                   "timeouts of a hanging server are not generated (the connection is reset instead).",
     "tests": [
-        ("TestVFC15Parser", (30000, 150000)),
+        ("TestVFC15Parser", (30000, 300000)),
         ("TestVFC15ParserLong", (400, 2000)),
-        ("TestVFC15Refresh", (200, 1000), {"steps": 8}),
+        ("TestVFC15Refresh", (300, 1500), {"steps": 8, "shards": (4, 16)}),
     ],
     "plain": ["TestVFC15RegressOtherKindAllFailed", "TestVFC15RegressSameKindMixed"],
     "shards": (2, 16),
